@@ -683,3 +683,110 @@ def controlling_calls(fn, target_bb):
                 truth = (v != 0) != inv
                 out.append((c, truth))
     return out
+
+
+# ---------------------------------------------------------------------------------------------
+# integer value ranges (sound over-approximation; used to discharge overflow asserts on arithmetic over
+# values that were widened from a narrower type, e.g. `(precision as i32) - (scale as i32)`)
+INT_RANGE = {}
+for _b in (8, 16, 32, 64, 128):
+    INT_RANGE[f"i{_b}"] = (-(1 << (_b - 1)), (1 << (_b - 1)) - 1)
+    INT_RANGE[f"u{_b}"] = (0, (1 << _b) - 1)
+INT_RANGE["isize"] = INT_RANGE["i64"]
+INT_RANGE["usize"] = INT_RANGE["u64"]
+
+
+def _clip(r, ty):
+    """r if it fits the type, else the whole type (wrapped or panicked: anything may follow)"""
+    t = INT_RANGE.get(ty)
+    if t is None:
+        return r
+    if r is None or r[0] < t[0] or r[1] > t[1]:
+        return t
+    return r
+
+
+def bin_range(op, a, b):
+    """mathematical range of `a op b` for operand ranges a, b (None when not derivable)"""
+    if a is None or b is None:
+        return None
+    op = op.replace("WithOverflow", "").replace("Unchecked", "")
+    if op == "Add":
+        return (a[0] + b[0], a[1] + b[1])
+    if op == "Sub":
+        return (a[0] - b[1], a[1] - b[0])
+    if op == "Mul":
+        c = [a[0] * b[0], a[0] * b[1], a[1] * b[0], a[1] * b[1]]
+        return (min(c), max(c))
+    return None
+
+
+def int_range(fn, op, at=None, depth=14, _seen=None):
+    """(lo, hi) covering every run-time value of integer operand `op` (a MIR operand) at block `at`,
+    or None when nothing is known (caller falls back to the type's range)."""
+    if depth <= 0:
+        return None
+    if op[0] == "k":
+        k = op[1]
+        if k.get("k") == "int" and isinstance(k.get("v"), int):
+            return (k["v"], k["v"])
+        return INT_RANGE.get(k.get("ty"))
+    if op[0] not in ("c", "m"):
+        return None
+    l, proj = op[1][0], op[1][1]
+    _seen = _seen or set()
+    if proj:
+        # `.0` of a checked-op tuple whose overflow assert passed: the mathematical result, which fits the type
+        if len(proj) == 1 and isinstance(proj[0], list) and proj[0][:2] == ["f", "0"]:
+            sd = fn.single_def(l) or fn.reaching_def(l, at)
+            if sd and sd[0] == "a" and sd[3][0] == "bin" and sd[3][1].endswith("WithOverflow"):
+                rv = sd[3]
+                ra = int_range(fn, rv[2], sd[1], depth - 1, _seen) or INT_RANGE.get(rv[4])
+                rb = int_range(fn, rv[3], sd[1], depth - 1, _seen) or INT_RANGE.get(rv[4])
+                return _clip(bin_range(rv[1], ra, rb), rv[4])
+        return None
+    lty = fn.locals[l].strip()
+    key = (l, at)
+    if key in _seen:
+        return INT_RANGE.get(lty)
+    _seen = _seen | {key}
+    sd = fn.single_def(l) or fn.reaching_def(l, at)
+    if sd is None:
+        ds = fn.defs.get(l, [])
+        if ds and all(x[0] in ("a", "call") for x in ds) and not (1 <= l <= fn.argc):
+            rs = [_def_range(fn, x, lty, depth - 1, _seen) for x in ds]
+            if all(r is not None for r in rs):
+                return (min(r[0] for r in rs), max(r[1] for r in rs))
+        return INT_RANGE.get(lty)
+    r = _def_range(fn, sd, lty, depth - 1, _seen)
+    return r if r is not None else INT_RANGE.get(lty)
+
+
+def _def_range(fn, sd, lty, depth, seen):
+    if sd[0] == "call":
+        c = sd[2]
+        name = c.name
+        if name in ("std::cmp::Ord::max", "std::cmp::Ord::min", "std::cmp::max", "std::cmp::min") and len(c.args) == 2:
+            ra = int_range(fn, c.args[0], c.bb, depth, seen)
+            rb = int_range(fn, c.args[1], c.bb, depth, seen)
+            if ra and rb:
+                return (max(ra[0], rb[0]), max(ra[1], rb[1])) if name.endswith("max") else (min(ra[0], rb[0]), min(ra[1], rb[1]))
+        return INT_RANGE.get(lty)
+    rv = sd[3]
+    k = rv[0]
+    if k == "use":
+        return int_range(fn, rv[1], sd[1], depth, seen)
+    if k == "cast" and rv[1] == "IntToInt":
+        src, dst = rv[3], rv[4]
+        r = int_range(fn, rv[2], sd[1], depth, seen) or INT_RANGE.get(src)
+        if r is None:
+            return INT_RANGE.get(dst)
+        s = INT_RANGE.get(src)
+        if s:
+            r = (max(r[0], s[0]), min(r[1], s[1]))
+        return _clip(r, dst)
+    if k == "bin" and rv[1] in ("Add", "Sub", "Mul"):
+        ra = int_range(fn, rv[2], sd[1], depth, seen) or INT_RANGE.get(rv[4])
+        rb = int_range(fn, rv[3], sd[1], depth, seen) or INT_RANGE.get(rv[4])
+        return _clip(bin_range(rv[1], ra, rb), rv[4])
+    return INT_RANGE.get(lty)
